@@ -5,7 +5,7 @@
     with the Writer's live copy, + forest_well_nested_live), live_rule; counterexamples
     overlap_counterexample(_min) (F-C17a, open) and pinned_kwargs_counterexample (F-C17b, fixed);
     io.capture as a mode of the stream machine (Model/Act.lean `Mode`, Proofs/ActMode.lean): restore_forest_mode,
-    restore_exec_nocapture, nocapture_passthrough(_init), mode_extends_fwd, capture_mode_independent_classification,
+    restore_exec_nocapture, nocapture_passthrough(_init), captured_intact_mode, mode_extends_fwd, capture_mode_independent_classification,
     save_out_independent_of_capture_partial (+ _refuted: the full statement is false of the code), py_stored.
 (K) the real PythonAction / CmdAction / Task.execute of $VERIF_REPO are run on generated cases (harness/actlib.py)
     and every observable is compared with the Lean model through doitdrv.
